@@ -3,7 +3,10 @@
 Fields with a value that is a unique function of (global cell index, component), seeded validity masks and
 cell-aligned subregions on anisotropic 2-4-d meshes are rotated by the real Region/Mesh/Field.rotate90 and compared with an
 own integer oracle: exact quarter-turn matrix Q on coordinates and mapped vector components, explicit index permutation
-(no use of numpy.rot90).  Bounded: <= 5 cells per axis, k in -5..5, seeded geometry."""
+(no use of numpy.rot90).  The component-to-axis mapping is presented to the library in every way the vdim_mapping setter accepts
+(keys in any insertion order, any label spelling incl. labels that look like axis names, not-mapped components pointing to None or to a
+name that is no axis, installed by the constructor or by the setter, more / fewer components than axes): the oracle looks the two
+components up by VALUE in the mapping, never by position.  Bounded: <= 5 cells per axis, k in -5..5, seeded geometry."""
 import itertools
 import numpy as np
 import discretisedfield as df
@@ -22,19 +25,27 @@ CLAUSES = {
     "C12.consistent": "field.rotate90(..).mesh == mesh.rotate90(..) and mesh.rotate90(..).region == region.rotate90(..) (incl. units, subregions)",
     "C12.inplace_eq_copy": "the in-place form returns the object itself and leaves it equal to what the copying form returns (region, mesh, field; geometry to 64 ulp, rest exact); the copying form leaves the receiver untouched",
     "C12.refuse_unmapped": "a vector field without component-to-axis mapping for a or b is refused (RuntimeError) in both forms and the object is left unchanged",
+    "C12.mapping_presentation": "the result depends only on the component-to-axis mapping, not on how it is written: fields that differ only in the insertion order of the vdim_mapping dict, "
+                                "in the spelling of the component labels, in what a not-mapped component points to (None / a name that is no axis) or in how the mapping was installed (constructor / setter) "
+                                "rotate to bitwise the same array, validity and mesh (copy form vs copy form, in-place vs in-place) and keep their own vdims and mapping",
     "C12.accept": "rotation of a scalar field or of a vector field with both components mapped succeeds for every axis pair, k and reference point",
 }
 RULE = ("seeded fields on 2-4-d anisotropic meshes (different n and cell per axis, scales 1e-9/1e-3/1 with subregions, 10^U(-12,6) without; distinct units per axis, "
-        "non-default dims), nvdim 1-4 with permuted / partial component-to-axis mappings; every ordered axis pair x k in -5..5 x reference (default / arbitrary, up to 100 region sizes away) "
-        "x (copy, in place); identities per (field, axis pair, reference); refusal per (field, unmapped axis pair). non-trivial = more than one cell; distinct by (kind, params)")
+        "non-default dims), nvdim 1-6 with permuted / partial component-to-axis mappings written with the dict keys in vdims order or shuffled, 5 label spellings (default, reverse-sorting, "
+        "axis names shifted by one, y/z/x, shuffled), not-mapped components -> None or a non-axis name, mapping installed by constructor or setter; every ordered axis pair x k in -5..5 x reference (default / arbitrary, up to 100 region sizes away) "
+        "x (copy, in place); identities per (field, axis pair, reference); refusal per (field, unmapped axis pair); "
+        "presentation families: 3 components on 3 axes (all 6 bijections x all 6 ordered axis pairs x all 6 key orders), 3 and 4 components on 2 axes (every placement of the two mapped components x both axis pairs "
+        "x all 6 resp. 12 of 24 (thorough: all 24) key orders), 2 components on 3 and 4 axes, seeded 2-6 components on 2-4 axes; each variant x k x (copy, in place) against the own oracle and against the canonical writing. non-trivial = more than one cell; distinct by (kind, params)")
 ASSUMPTIONS = [
-    "bounded: 2-4 dimensions, <= 5 cells per axis, k in -5..5 (plus +-9, 1002 in thorough), seeded geometry, <= 3 subregions",
+    "bounded: 2-4 dimensions, <= 5 cells per axis, k in -5..5 (plus +-9, 1002 in thorough), seeded geometry, <= 3 subregions, <= 6 components",
+    "a component mapped to a name that is not a dimension of the mesh counts as not mapped (e.g. the z component of a 3-component field on an x-y mesh); injective mappings only",
     "'to rounding' = 64 ulp relative to the operand scale: max(|corner|,|R|) for coordinates, max |component| of the rotated pair for values (the library multiplies by cos/sin of k*pi/2)",
 ]
 
 DIMS = ["u", "w", "q", "t"]
 UNITS = ["nm", "s", "T", "kg"]
-VD = ["va", "vb", "vc", "vd"]
+VD = ["va", "vb", "vc", "vd", "ve", "vf"]
+LABEL_CLASSES = ("VD", "revsort", "dimnames", "yzx", "shuffled")
 QS = {0: ((1, 0), (0, 1)), 1: ((0, -1), (1, 0)), 2: ((-1, 0), (0, -1)), 3: ((0, 1), (-1, 0))}
 ULPS = 64
 
@@ -68,6 +79,11 @@ class Agg:
             self.ctx.require(False, clause, what, sig=sig, failures_in_case=cnt, **detail)
 
 
+def errtxt(v):
+    """text of an exception; nothing for a returned object (the repr of a Field renders an html template, ~50 ms)"""
+    return repr(v)[:200] if isinstance(v, BaseException) else None
+
+
 def build(pr):
     p1, p2 = np.array(pr["p1"], float), np.array(pr["p2"], float)
     n = np.array(pr["n"], int)
@@ -85,11 +101,21 @@ def build(pr):
     valid = np.random.default_rng(pr.get("vseed", 0)).random(tuple(n)) < 0.6
     kw = {}
     vmap = pr.get("vmap")
+    later = None
     if pr.get("vdims", nvdim > 1):
-        kw["vdims"] = VD[:nvdim]
+        labels = list(pr.get("vlabels") or VD[:nvdim])
+        kw["vdims"] = labels
         if vmap is not None:
-            kw["vdim_mapping"] = {VD[c]: (dims[j] if j is not None else None) for c, j in enumerate(vmap)}
+            # vmap[c]: axis index | None | a name that is no axis.  vorder: the order in which the keys are inserted into the dict
+            order = pr.get("vorder") or list(range(nvdim))
+            mapping = {labels[c]: (dims[vmap[c]] if isinstance(vmap[c], int) else vmap[c]) for c in order}
+            if pr.get("via") == "setter":
+                later = mapping
+            else:
+                kw["vdim_mapping"] = mapping
     field = df.Field(mesh, nvdim=nvdim, value=array.copy(), valid=valid.copy(), unit="A/m", **kw)
+    if later is not None:
+        field.vdim_mapping = later
     return field
 
 
@@ -213,6 +239,132 @@ def index_boxes(rng, n, count):
     return out
 
 
+def make_labels(rng, cls, nvdim, dims):
+    """component labels of one spelling class (None = VD[:nvdim])"""
+    if cls == "revsort":            # alphabetical order is the reverse of the component order
+        return ["zf", "ye", "xd", "wc", "vb", "ua"][:nvdim]
+    if cls == "dimnames":           # the axis names shifted by one: component 0 is spelled like axis 1 ...
+        rot = list(dims[1:]) + list(dims[:1])
+        return (rot + [v for v in VD if v not in rot])[:nvdim]
+    if cls == "yzx":
+        return ["y", "z", "x", "t0", "t1", "t2"][:nvdim]
+    if cls == "shuffled":
+        return [VD[int(i)] for i in rng.permutation(len(VD))[:nvdim]]
+    return None
+
+
+def shuffled_order(rng, nvdim):
+    while True:
+        o = [int(i) for i in rng.permutation(nvdim)]
+        if o != list(range(nvdim)) or nvdim < 2:
+            return o
+
+
+def foreignise(rng, vm, dims):
+    """not-mapped components point to None or (half of the time) to a name that is not an axis of the mesh"""
+    names = [x for x in ("z", "out", "n", "x9") if x not in dims]
+    return [(names[int(rng.integers(len(names)))] if (j is None and rng.random() < 0.5) else j) for j in vm]
+
+
+def presentation(rng, nvdim, dims):
+    """a random way of writing the mapping down: key order, label spelling, constructor / setter"""
+    cls = LABEL_CLASSES[int(rng.integers(len(LABEL_CLASSES)))]
+    return {"vorder": shuffled_order(rng, nvdim) if rng.random() < 0.8 else None, "vlabels": make_labels(rng, cls, nvdim, dims),
+            "via": "setter" if rng.random() < 0.3 else "ctor"}
+
+
+def variant_list(rng, nvdim, dims, vm, count):
+    """ways of writing one and the same mapping vm: key orders x label spellings x None/foreign name x constructor/setter"""
+    perms = [list(o) for o in itertools.permutations(range(nvdim))]
+    ident = list(range(nvdim))
+    if len(perms) * len(LABEL_CLASSES) <= 12:
+        combos = [(o, c) for o in perms for c in LABEL_CLASSES if not (o == ident and c == "VD")]
+    else:
+        if len(perms) > count:
+            fixed = [ident, ident[::-1], ident[1:] + ident[:1], ident[-1:] + ident[:-1]]
+            orders = [o for i, o in enumerate(fixed) if o not in fixed[:i]]
+            while len(orders) < count:
+                o = shuffled_order(rng, nvdim)
+                if o not in orders:
+                    orders.append(o)
+        else:
+            orders = perms
+        combos = [(o, LABEL_CLASSES[(i + 1) % len(LABEL_CLASSES)]) for i, o in enumerate(orders)]      # identity order gets a non-default spelling, a shuffled order the default one
+    out = []
+    for i, (o, c) in enumerate(combos):
+        v = {"vorder": o, "vlabels": make_labels(rng, c, nvdim, dims), "via": "setter" if i % 3 == 2 else "ctor"}
+        if any(j is None for j in vm):
+            v["vmap"] = foreignise(rng, vm, dims) if i % 2 else list(vm)
+        out.append(v)
+    return out
+
+
+def family_cases(ctx, ks):
+    """presentation families: the combinatorics is exhaustive, only the geometry is seeded"""
+    rng = ctx.rng
+    quick = ctx.tier == "quick"
+
+    def base_for(nd, nmax, named):
+        p1, p2, n, s = geometry(rng, nd, True, nmax)
+        b = {"p1": p1, "p2": p2, "n": n, "vseed": int(rng.integers(1 << 30)), "vscale": float(10.0 ** rng.integers(-3, 4)), "subs": index_boxes(rng, n, 1)}
+        if named:
+            b["dims"] = ["x", "y", "z"][:nd] if nd <= 3 else ["x0", "x1", "x2", "x3"]
+        return b, 0.5 * (np.array(p1) + np.array(p2)), np.abs(np.array(p1) - np.array(p2))
+
+    def ref_for(i, centre, size):
+        return None if i % 2 == 0 else (centre + rng.uniform(-1, 1, len(centre)) * size).tolist()
+
+    i = 0
+    # 3 components on 3 axes: every bijection x every ordered axis pair x every key order
+    for perm in itertools.permutations(range(3)):
+        base, centre, size = base_for(3, 3, i % 2 == 0)
+        dims = base.get("dims") or DIMS[:3]
+        for a, b in itertools.permutations(range(3), 2):
+            i += 1
+            yield "presentation", dict(base, nvdim=3, vmap=list(perm), a=a, b=b, ks=ks, ref=ref_for(i, centre, size), variants=variant_list(rng, 3, dims, list(perm), 6))
+    # more components than axes: 3 and 4 components on 2 axes, every placement of the two mapped components
+    for nv in (3, 4):
+        for ca, cb in itertools.permutations(range(nv), 2):
+            base, centre, size = base_for(2, 4, i % 2 == 0)
+            dims = base.get("dims") or DIMS[:2]
+            for a, b in ((0, 1), (1, 0)):
+                i += 1
+                vm = [None] * nv
+                vm[ca], vm[cb] = a, b
+                yield "presentation", dict(base, nvdim=nv, vmap=vm, a=a, b=b, ks=ks, ref=ref_for(i, centre, size),
+                                           variants=variant_list(rng, nv, dims, vm, 6 if nv == 3 else (12 if quick else 24)))
+                # refusal must not depend on the writing either: one of the two components is taken out, labels spelled like the axes
+                for miss in (("a", "b", "both")[i % 3],) if quick else ("a", "b", "both"):
+                    vr = [None if ((j == a and miss in ("a", "both")) or (j == b and miss in ("b", "both"))) else j for j in vm]
+                    cls = ("dimnames", "yzx", "revsort")[i % 3]
+                    yield "refuse", dict(base, nvdim=nv, vmap=foreignise(rng, vr, dims), vorder=shuffled_order(rng, nv), vlabels=make_labels(rng, cls, nv, dims),
+                                         via="setter" if i % 4 == 0 else "ctor", a=a, b=b, k=int(rng.choice(ks)), ref=ref_for(i + 1, centre, size))
+    # fewer components than axes: 2 components on 3 and 4 axes
+    for nd in (3, 4):
+        base, centre, size = base_for(nd, 3, nd == 3)
+        dims = base.get("dims") or DIMS[:nd]
+        for a, b in itertools.permutations(range(nd), 2):
+            i += 1
+            if quick and nd == 4 and i % 2:
+                continue
+            vm = [a, b] if i % 4 < 2 else [b, a]
+            yield "presentation", dict(base, nvdim=2, vmap=vm, a=a, b=b, ks=ks, ref=ref_for(i, centre, size), variants=variant_list(rng, 2, dims, vm, 6))
+    # seeded: 2-6 components on 2-4 axes, partial mappings
+    for nd in (2, 3, 4):
+        for rep in range(3 if quick else 16):
+            base, centre, size = base_for(nd, 4, rep % 2 == 1)
+            dims = base.get("dims") or DIMS[:nd]
+            nv = int(rng.integers(2, 7))
+            pairs = list(itertools.permutations(range(nd), 2))
+            for a, b in (pairs if not quick else [pairs[int(j)] for j in rng.permutation(len(pairs))[:3]]):
+                i += 1
+                vm = random_vmap(rng, nv, nd)
+                vm = [None if j in (a, b) else j for j in vm]
+                ca, cb = (int(x) for x in rng.permutation(nv)[:2])
+                vm[ca], vm[cb] = a, b
+                yield "presentation", dict(base, nvdim=nv, vmap=vm, a=a, b=b, ks=ks, ref=ref_for(i, centre, size), variants=variant_list(rng, nv, dims, vm, 5 if quick else 8))
+
+
 def cases(ctx):
     rng = ctx.rng
     quick = ctx.tier == "quick"
@@ -241,6 +393,9 @@ def cases(ctx):
                     vm[ca], vm[cb] = a, b
                     if rep == 0:
                         vm = None          # library default mapping (nvdim == ndim)
+                    else:                  # the mapping is written down in a seeded way (key order, label spelling, None / non-axis name, constructor / setter)
+                        vm = foreignise(rng, vm, base.get("dims") or DIMS[:nd])
+                        pr.update(presentation(rng, nvdim, base.get("dims") or DIMS[:nd]))
                     pr["vmap"] = vm
                 else:
                     pr["vdims"] = bool(rng.integers(0, 2))
@@ -266,7 +421,12 @@ def cases(ctx):
                             vm = "empty"
                         if quick and miss in ("both", "empty") and (a + b) % 2:
                             continue
-                        yield "refuse", dict(base, nvdim=nv, vmap=vm, a=a, b=b, k=int(rng.choice(ks)), ref=None if rng.random() < 0.5 else centre.tolist())
+                        pres = {}
+                        if vm != "empty":
+                            vm = foreignise(rng, vm, base.get("dims") or DIMS[:nd])
+                            pres = presentation(rng, nv, base.get("dims") or DIMS[:nd])
+                        yield "refuse", dict(base, nvdim=nv, vmap=vm, a=a, b=b, k=int(rng.choice(ks)), ref=None if rng.random() < 0.5 else centre.tolist(), **pres)
+    yield from family_cases(ctx, ks)
     # fixed: the documented example and default 3-d vector field
     yield "rotate", {"p1": [0.0, 0.0, 0.0], "p2": [10.0, 8.0, 6.0], "n": [10, 4, 6], "nvdim": 3, "vseed": 5, "subs": [[[0, 0, 0], [5, 2, 6]]], "vmap": None,
                      "a": 0, "b": 1, "ks": ks, "ref": None, "dims": ["x", "y", "z"]}
@@ -289,7 +449,7 @@ def check(kind, pr, ctx):
     if int(np.prod(pr["n"])) == 1:
         ctx.trivial()
     ag = Agg(ctx)
-    {"rotate": check_rotate, "identities": check_identities, "refuse": check_refuse}[kind](pr, ag)
+    {"rotate": check_rotate, "identities": check_identities, "refuse": check_refuse, "presentation": check_presentation}[kind](pr, ag)
     ag.flush()
 
 
@@ -337,7 +497,7 @@ def check_rotate(pr, ag):
         ksig = "large-k-trigonometric-rounding" if abs(k) > 64 else None      # the library evaluates cos/sin(k*pi/2) without reducing k
         exp, idx, (ca, cb) = expected_field(s0, dims, a, b, k, R)
         r, g = raises(Exception, lambda: f0.rotate90(**kw))
-        if not ag.req(not r, "C12.accept", "Field.rotate90 (copy) raised", sig=ksig, k=k, a=a, b=b, error=repr(g)[:200]):
+        if not ag.req(not r, "C12.accept", "Field.rotate90 (copy) raised", sig=ksig, k=k, a=a, b=b, error=errtxt(g)):
             continue
         ag.req(not diff(snap(f0), s0), "C12.inplace_eq_copy", "the copying form modified the receiver", sig="copy-modifies-receiver", k=k, changed=diff(snap(f0), s0))
         sg = snap(g)
@@ -402,7 +562,7 @@ def check_rotate(pr, ag):
                 continue
             obj = mk()
             ri, ret = raises(Exception, lambda: obj.rotate90(inplace=True, **kw))
-            if not ag.req(not ri, "C12.inplace_eq_copy", "in-place rotation raised where the copying form succeeds", sig="inplace-raises-" + what, k=k, error=repr(ret)[:200]):
+            if not ag.req(not ri, "C12.inplace_eq_copy", "in-place rotation raised where the copying form succeeds", sig="inplace-raises-" + what, k=k, error=errtxt(ret)):
                 continue
             ag.req(ret is obj, "C12.inplace_eq_copy", "in-place rotation does not return the object itself", sig="inplace-returns-other-" + what, k=k)
             d = diff(snap(obj), snap(cp), sc, float(np.abs(s0["array"]).max()))
@@ -434,7 +594,7 @@ def check_identities(pr, ag):
     base = {}
     for k in pr["ks"]:
         r, g = raises(Exception, lambda: f0.rotate90(**rot_kwargs(dims, a, b, k, ref)))
-        if not ag.req(not r, "C12.accept", "Field.rotate90 raised", sig="large-k-trigonometric-rounding" if abs(k) > 64 else None, k=k, error=repr(g)[:200]):
+        if not ag.req(not r, "C12.accept", "Field.rotate90 raised", sig="large-k-trigonometric-rounding" if abs(k) > 64 else None, k=k, error=errtxt(g)):
             continue
         m = k % 4
         if m not in base:
@@ -495,7 +655,7 @@ def check_refuse(pr, ag):
         refused, err = True, e
     except Exception as e:
         refused, err = False, e
-    ag.req(refused, "C12.refuse_unmapped", "vector field without mapping for a or b not refused with RuntimeError (copy form)", k=k, a=a, b=b, vmap=s0["vmap"], error=repr(err)[:200])
+    ag.req(refused, "C12.refuse_unmapped", "vector field without mapping for a or b not refused with RuntimeError (copy form)", k=k, a=a, b=b, vmap=s0["vmap"], error=errtxt(err))
     ag.req(not diff(snap(f0), s0), "C12.refuse_unmapped", "refused copy-form rotation modified the field", sig="copy-refusal-modifies", differs=diff(snap(f0), s0))
     try:
         f0.rotate90(inplace=True, **kw)
@@ -504,11 +664,104 @@ def check_refuse(pr, ag):
         refused, err = True, e
     except Exception as e:
         refused, err = False, e
-    ag.req(refused, "C12.refuse_unmapped", "vector field without mapping for a or b not refused with RuntimeError (in-place form)", k=k, a=a, b=b, vmap=s0["vmap"], error=repr(err)[:200])
+    ag.req(refused, "C12.refuse_unmapped", "vector field without mapping for a or b not refused with RuntimeError (in-place form)", k=k, a=a, b=b, vmap=s0["vmap"], error=errtxt(err))
     d = diff(snap(f0), s0)
     shape_ok = f0.array.shape == (*f0.mesh.n, f0.nvdim)
     sig = "inplace-refusal-after-mesh-already-rotated" if d and "array" not in d and "valid" not in d else None
     ag.req(not d, "C12.refuse_unmapped", "refused in-place rotation left the field modified", sig=sig, k=k, a=a, b=b, differs=d, array_shape_matches_mesh=shape_ok)
     # the mesh and region of such a field still rotate (nothing to map there)
     r, gm = raises(Exception, lambda: make(pr).mesh.rotate90(**kw))
-    ag.req(not r, "C12.accept", "mesh of an unmapped vector field cannot be rotated", error=repr(gm)[:200])
+    ag.req(not r, "C12.accept", "mesh of an unmapped vector field cannot be rotated", error=errtxt(gm))
+
+
+def oracle_mismatch(sg, exp, s0, comps, sc):
+    """why the state sg is not the own oracle's rotated field exp (None if it is): mesh (geometry to ULPS of sc, rest exact), values (the rotated pair to ULPS of
+    the pair's magnitude in that cell, everything else exact), validity (exact), names (exact)"""
+    dm = diff(sg["mesh"], exp["mesh"], sc)
+    if dm:
+        return "mesh: " + ",".join(dm)
+    if sg["array"].shape != exp["array"].shape or sg["valid"].shape != exp["valid"].shape:
+        return "shape"
+    nv = s0["nvdim"]
+    if nv > 1:
+        pair = list(comps)
+        rest = [c for c in range(nv) if c not in pair]
+        vs = np.max(np.abs(exp["array"][..., pair]), axis=-1)         # Q is a signed permutation: the magnitudes of the pair move with the cell
+        if not np.all(np.abs(sg["array"][..., pair] - exp["array"][..., pair]) <= ULPS * np.finfo(float).eps * vs[..., None]):
+            return "the two mapped components at the image point are not Q applied to the two mapped components of f(p)"
+        if not np.array_equal(sg["array"][..., rest], exp["array"][..., rest]):
+            return "a component that is not mapped to a or b changed"
+    elif not np.array_equal(sg["array"], exp["array"]):
+        return "scalar value at the image point differs"
+    if sg["valid"].dtype != bool or not np.array_equal(sg["valid"], exp["valid"]):
+        return "validity does not move with the cell"
+    for key in ("vdims", "vmap", "unit", "nvdim"):
+        if sg[key] != exp[key]:
+            return "names: " + key
+    return None
+
+
+def check_presentation(pr, ag):
+    """one mapping, many ways of writing it down: each writing against the own oracle and against the canonical writing (keys in vdims order, default labels, None, constructor)"""
+    a, b, ref = pr["a"], pr["b"], pr["ref"]
+    nv = pr["nvdim"]
+    canon = {key: val for key, val in pr.items() if key not in ("variants", "vorder", "vlabels", "via")}
+    canon["vmap"] = [j if isinstance(j, int) else None for j in pr["vmap"]]
+    variants = []
+    for v in pr["variants"]:
+        p = dict(canon, **v)
+        assert [j if isinstance(j, int) else None for j in p["vmap"]] == canon["vmap"], "a variant must describe the same mapping"
+        variants.append(p)
+    fc = make(canon)
+    sc0 = snap(fc)
+    r0 = sc0["mesh"]["region"]
+    dims = r0["dims"]
+    R = 0.5 * (r0["pmin"] + r0["pmax"]) if ref is None else np.array(ref, float)
+    sc = scale_ab(r0, R, a, b)
+    fields = [(p, make(p)) for p in variants]
+    snaps = [snap(f) for _, f in fields]
+    for p, s in zip(variants, snaps):        # the variants are the same field up to the writing of the mapping (a statement about this module's builder)
+        assert np.array_equal(s["array"], sc0["array"]) and np.array_equal(s["valid"], sc0["valid"]) and not diff(s["mesh"], sc0["mesh"])
+        assert list(s["vmap"]) == [s["vdims"][c] for c in (p.get("vorder") or range(nv))], "the builder did not produce the requested key order"
+    for k in pr["ks"]:
+        kw = rot_kwargs(dims, a, b, k, ref)
+        ksig = "large-k-trigonometric-rounding" if abs(k) > 64 else None
+        # canonical writing, both forms
+        rc, gc = raises(Exception, lambda: fc.rotate90(**kw))
+        hc = make(canon)
+        rci, _ = raises(Exception, lambda: hc.rotate90(inplace=True, **kw))
+        if not ag.req(not rc and not rci, "C12.accept", "rotation of the canonically written field raised", sig=ksig, k=k, a=a, b=b, error=errtxt(gc)):
+            continue
+        sgc, shc = snap(gc), snap(hc)
+        for p, (_, f), s0 in zip(variants, fields, snaps):
+            tag = {"vdims": s0["vdims"], "vdim_mapping": list(f.vdim_mapping.items()), "via": p.get("via", "ctor")}
+            exp, idx, comps = expected_field(s0, dims, a, b, k, R)
+            # copying form
+            r, g = raises(Exception, lambda: f.rotate90(**kw))
+            if not ag.req(not r, "C12.accept", "Field.rotate90 (copy) raised for a field with both components mapped", sig=ksig or "accept-depends-on-writing-of-mapping", k=k, a=a, b=b, error=errtxt(g), **tag):
+                continue
+            ag.req(not diff(snap(f), s0), "C12.inplace_eq_copy", "the copying form modified the receiver", sig="copy-modifies-receiver", k=k, changed=diff(snap(f), s0), **tag)
+            sg = snap(g)
+            why = oracle_mismatch(sg, exp, s0, comps, sc)
+            ag.req(why is None, "C12.point_map", "g(R+Q(p-R)) != Q f(p) (copy form): %s" % why, sig=ksig or "wrong-components-for-reordered-or-relabelled-mapping", k=k, a=a, b=b, R=R, comps=list(comps),
+                   f_first_cell=s0["array"][(0,) * len(dims)], g_image_cell=sg["array"][tuple(int(i[(0,) * len(dims)]) for i in idx)] if sg["array"].shape == exp["array"].shape else None,
+                   want=exp["array"][tuple(int(i[(0,) * len(dims)]) for i in idx)], **tag)
+            same = np.array_equal(sg["array"], sgc["array"]) and np.array_equal(sg["valid"], sgc["valid"]) and not diff(sg["mesh"], sgc["mesh"]) \
+                and sg["vdims"] == s0["vdims"] and sg["vmap"] == s0["vmap"] and sg["unit"] == sgc["unit"]
+            ag.req(same, "C12.mapping_presentation", "the copy-form result depends on how the mapping is written (differs from the result for the canonical writing)", k=k, a=a, b=b,
+                   array_same=np.array_equal(sg["array"], sgc["array"]), valid_same=np.array_equal(sg["valid"], sgc["valid"]), mesh_diff=diff(sg["mesh"], sgc["mesh"]), got_vmap=sg["vmap"], **tag)
+            # in-place form on a private copy
+            h = make(p)
+            ri, ret = raises(Exception, lambda: h.rotate90(inplace=True, **kw))
+            if not ag.req(not ri, "C12.inplace_eq_copy", "in-place rotation raised where the copying form succeeds", sig="inplace-raises-field", k=k, error=errtxt(ret), **tag):
+                continue
+            ag.req(ret is h, "C12.inplace_eq_copy", "in-place rotation does not return the object itself", sig="inplace-returns-other-field", k=k)
+            sh = snap(h)
+            why = oracle_mismatch(sh, exp, s0, comps, sc)
+            ag.req(why is None, "C12.point_map", "g(R+Q(p-R)) != Q f(p) (in-place form): %s" % why, sig=ksig or "wrong-components-for-reordered-or-relabelled-mapping", k=k, a=a, b=b, R=R, comps=list(comps), **tag)
+            d = diff(sh, sg, sc, float(np.abs(s0["array"]).max()))
+            ag.req(not d, "C12.inplace_eq_copy", "state after the in-place form differs from the copy form's result (field)", k=k, a=a, b=b, differs=d, **tag)
+            same = np.array_equal(sh["array"], shc["array"]) and np.array_equal(sh["valid"], shc["valid"]) and not diff(sh["mesh"], shc["mesh"]) \
+                and sh["vdims"] == s0["vdims"] and sh["vmap"] == s0["vmap"] and sh["unit"] == shc["unit"]
+            ag.req(same, "C12.mapping_presentation", "the in-place result depends on how the mapping is written (differs from the result for the canonical writing)", k=k, a=a, b=b,
+                   array_same=np.array_equal(sh["array"], shc["array"]), valid_same=np.array_equal(sh["valid"], shc["valid"]), mesh_diff=diff(sh["mesh"], shc["mesh"]), got_vmap=sh["vmap"], **tag)
